@@ -826,6 +826,29 @@ def check_C18(chk, tier, seed):
     hist = exhaustive_type_table(eng)[::3] + gen_histories(rng, eng, n, big=False)
     # decoded starting points too
     frames = corpus_frames(rng.fork("dec"), eng, 300 if tier == "quick" else 5000)
+    # messages that repeat a top-level code - the same code two to four times with different values, and the same code under
+    # another vendor (hence another type) in between - both as built messages and as decoded starting points
+    rep_hist = []
+    gd = eng.dicts["g"]
+    leafdefs = [d for d in gd.live() if d["ty"] not in ("grp", "unk") and 1000 <= d["code"] < 1100]
+    for k, d in enumerate(leafdefs):
+        r = rng.fork(f"rep{k}")
+        twin = [x for x in leafdefs if x["code"] == d["code"] and x["vendor"] != d["vendor"]]
+        seq = []
+        for j in range(r.range(2, 4)):
+            seq.append(("ADDAVP", d["code"], d["vendor"], r.choice([0, 0x40]), ("L", gen.gen_leaf(r, gen.kinds_of_ty(d["ty"])[0]))))
+            if twin and j == 0:
+                t = twin[0]
+                seq.append(("ADDAVP", t["code"], t["vendor"], 0, ("L", gen.gen_leaf(r, gen.kinds_of_ty(t["ty"])[0]))))
+            if r.chance(1, 2):
+                o = r.choice(leafdefs)
+                seq.append(("ADDAVP", o["code"], o["vendor"], 0, ("L", gen.gen_leaf(r, gen.kinds_of_ty(o["ty"])[0]))))
+        rep_hist.append(hist_line("g", ("NEW", 272, 4, 0x80, 1, 2), seq))
+    hist += rep_hist
+    for m in eng.ask_model(rep_hist):
+        _, o = split_obs(m)
+        if o.get("WD") == "1":
+            frames.insert(0, ("g", bytes.fromhex(o["SPEC"][1:])))
     # a frame that is refused in the middle of a group (one good member, then a member the dictionary does not know) is decoded
     # right before every decoded starting point, on the same decoder thread: nothing of it may show up in the next message
     ggrp = [d for d in eng.dicts["g"].live() if d["ty"] == "grp" and d["vendor"] is None][0]
